@@ -26,6 +26,8 @@ func init() {
 				Doc: "Route tokens come from the full path: pathParts/hasCustomVerb are computed from Route.Path, which Build assigns from root path + route path."},
 			{ID: "C04.e", Template: "T-SIBLING", Required: true, Run: ruleC04e,
 				Doc: "The JSR311 binder reads the same match the JSR311 router made: service expression on the URL path, route expression on the final group of that match."},
+			{ID: "C04.g", Template: "T-OWN", Required: true, Run: ruleC04g,
+				Doc: "The token slice the values are bound from is read-only after tokenisation: no element store, copy(), truncating append or in-place sort on it or a sub-slice, in the tokenising function or in a module function it is handed to (a trace helper that abbreviates tokens in place changes the bound values when tracing is on)."},
 			{ID: "C04.f", Template: "T-ARGS", Required: false, SourceOnly: true, Run: ruleArgumentOrder,
 				Doc: "Crossed same-typed arguments (same obligations as C01.g): the binder and its helpers take template text and URL text side by side."},
 		},
